@@ -246,7 +246,7 @@ Proof.
     + apply le_arg_aplain. exact Hle.
     + eapply choice_aplain; [exact WC.choice_sub_mimetypes|exact Hmt].
   - destruct Hg as (Henc & kv & ->).
-    destruct (meta_call_inv _ _ _ _ _ Hc) as (j & d & Ej & Htruthy & Hfmt & _). injection Ej as <-.
+    destruct (meta_call_inv_gen _ _ _ _ _ Hc) as (j & d & has_enc & Ej & Htruthy & Hfmt & _). injection Ej as <-.
     constructor.
     + intros ->. discriminate Htruthy.
     + exact Henc.
@@ -505,24 +505,28 @@ Proof.
 Qed.
 
 (* C06 for the streaming writer's files: the file parses into a tree, and that tree serialises to the identical
-   bytes (and is a fixed point) *)
+   bytes (and is a fixed point).  [metas_encoded s0 cs] (RoundTripSim.v): at every write_meta an encoding is in
+   force; added with the fix of write_meta (see C01_round_trip / C05_full: with none in force the JSON is written
+   and read back as bytes, outside what [oracle_ok] and DomSpec.expected_view describe). *)
 Theorem C06_canonical : forall enc0 ver s0 cs orc,
   writer_init enc0 ver = (s0, Ok tt) -> enc_ok enc0 ->
   Forall call_good cs -> Forall indent_explicit cs -> accepted s0 cs ->
-  guesses_ok s0 cs -> oracle_ok orc cs ->
+  metas_encoded s0 cs -> guesses_ok s0 cs -> oracle_ok orc cs ->
   (Z.of_nat (length (w_out (snd (run_calls s0 cs)))) <= sys_maxsize)%Z ->
   exists t', dom_read orc (w_out (snd (run_calls s0 cs))) = Ok t' /\
              dom_write t' = Ok (w_out (snd (run_calls s0 cs))) /\ normalise t' = t' /\
              (forall b', dom_write t' = Ok b' -> dom_read orc b' = Ok t') /\
              exists t0, tree_calls t0 = Ok cs /\ t' = normalise t0.
 Proof.
-  intros enc0 ver s0 cs orc Hinit He Hg Hi Ha Hgs Ho Hsz.
+  intros enc0 ver s0 cs orc Hinit He Hg Hi Ha Hme Hgs Ho Hsz.
   destruct (calls_have_tree enc0 ver s0 cs Hinit He Hg Hi Ha) as (t0 & T1 & T2 & T3 & T4 & T5 & T6 & Hw).
   assert (Hto : tree_oracle_ok orc t0).
   { intros cs' Hc'. rewrite T1 in Hc'. injection Hc' as <-. exact Ho. }
   assert (Htg : tree_guesses_ok t0).
   { intros s0' cs' Hi' Hc'. rewrite T1 in Hc'. injection Hc' as <-. rewrite T5, T6, Hinit in Hi'. injection Hi' as <-. exact Hgs. }
-  destruct (C06_full orc t0 _ T2 T3 T4 Hw Hto Htg Hsz) as (t' & R1 & R2 & R3 & R4 & R5).
+  assert (Htm : tree_metas_encoded t0).
+  { intros s0' cs' Hi' Hc'. rewrite T1 in Hc'. injection Hc' as <-. rewrite T5, T6, Hinit in Hi'. injection Hi' as <-. exact Hme. }
+  destruct (C06_full orc t0 _ T2 T3 T4 Hw Hto Htm Htg Hsz) as (t' & R1 & R2 & R3 & R4 & R5).
   exists t'. repeat (split; [assumption|]). exists t0. split; assumption.
 Qed.
 
@@ -531,14 +535,14 @@ Qed.
 Theorem C06_canonical_aligned : forall enc0 ver s0 cs orc,
   writer_init enc0 ver = (s0, Ok tt) -> enc_aligned enc0 ->
   Forall call_good cs -> Forall (fun c => enc_aligned (call_enc c)) cs -> Forall indent_explicit cs -> accepted s0 cs ->
-  oracle_ok orc cs ->
+  metas_encoded s0 cs -> oracle_ok orc cs ->
   (Z.of_nat (length (w_out (snd (run_calls s0 cs)))) <= sys_maxsize)%Z ->
   exists t', dom_read orc (w_out (snd (run_calls s0 cs))) = Ok t' /\
              dom_write t' = Ok (w_out (snd (run_calls s0 cs))) /\ normalise t' = t' /\
              (forall b', dom_write t' = Ok b' -> dom_read orc b' = Ok t') /\
              exists t0, tree_calls t0 = Ok cs /\ t' = normalise t0.
 Proof.
-  intros enc0 ver s0 cs orc Hinit He Hg Hal Hi Ha Ho Hsz.
+  intros enc0 ver s0 cs orc Hinit He Hg Hal Hi Ha Hme Ho Hsz.
   apply (C06_canonical enc0 ver s0 cs orc Hinit (enc_aligned_ok _ He) Hg Hi Ha); try assumption.
   destruct (init_stack _ _ _ Hinit) as (x & Hst & ->).
   apply guesses_ok_aligned; [rewrite Hst; discriminate | | exact Hal].
@@ -562,7 +566,7 @@ Example ex_C06_canonical :
              exists t0, tree_calls t0 = Ok SE.ex_cs /\ t' = normalise t0.
 Proof.
   exact (C06_canonical SE.ex_enc0 SE.ex_ver SE.ex_s0 SE.ex_cs SE.ex_orc SE.ex_init SE.ex_enc0_ok SE.ex_good
-           ex_indent_explicit SE.ex_accepted SE.ex_guesses SE.ex_oracle SE.ex_size).
+           ex_indent_explicit SE.ex_accepted SE.ex_metas SE.ex_guesses SE.ex_oracle SE.ex_size).
 Qed.
 
 (* the restriction on indent is needed: write_preamble(indent=None) writes the text unindented and no indent
